@@ -52,10 +52,19 @@ def run(ctx):
         L = rng.choice([1, 2, 3, 7, 30, 100, 499, 500, 501] + ([1200, 5000] if not ctx.quick else [800]))
         if kind == "protein":
             alpha = [gen.AA, gen.AA + "BZX", "X", "B", "AX", "W", "LMIV"][comp]
+            if i % 5 == 2:
+                # an ambiguity code with the residues it stands for (B = D/N, Z = E/Q) and with the other codes: the pairs whose scores sit closest to
+                # the codes' own diagonal entries
+                alpha = rng.choice(["BD", "BN", "ZE", "ZQ", "BZ", "BDN", "ZEQ", "XB", "XZ", "BDZE"])
+                L = rng.choice([16, 30, 60, 100, 240])
         else:
             base = gen.RNA if kind == "rna" else gen.DNA
             alpha = [base, base + gen.IUPAC, "N", "A", "AN", "AT", base + "N"][comp]
         s = gen.rand_seq(rng, alpha, L)
+        if kind == "protein" and i % 5 == 2 and len(alpha) == 2 and rng.random() < 0.6:
+            s = (alpha * L)[:L]              # strictly alternating
+            if rng.random() < 0.3:
+                s = gen.rand_seq(rng, gen.AA, rng.randint(3, 20)) + s + gen.rand_seq(rng, gen.AA, rng.randint(3, 20))
         if rng.random() < 0.3:
             s = "".join(ch.lower() if rng.random() < 0.5 else ch for ch in s)
         copies = rng.choice([2, 2, 3, 5, 17, 60, 99, 100, 101] + ([500] if not ctx.quick else [150]))
